@@ -15,17 +15,20 @@
   `FuseQ.simplexQ` / `FuseQ.baseRateQ`, for ECm followed by the uncertainty maximisation under the
   fused base rate.
 
-  FINDING (per-entry `ulps_eq!` shortcut).  `compute_base_rate` returns `lhs.base_rate[i]` instead of
-  the formula value wherever `ulps_eq!(lhs.base_rate[i], rhs.base_rate[i])`.  An entry taking the
-  shortcut with UNEQUAL values replaces a convex combination of `a1 i`, `a2 i` by `a1 i`, so the
-  fused base rate need not sum to exactly one: `|Σa − 1| ≤ Σ_{i : shortcut} |a1 i − a2 i|`
-  (`C02_base_rate_sum_bound`).  It sums to exactly one when the shortcut is only taken at equal
-  entries (`C02_base_rate_sum`), e.g. when the base rates are equal, or differ by more than 4 ulps
-  and more than ε at every entry where they differ.  The other parts of the property hold unconditionally.
+  REPAIRED FINDING (per-entry shortcut; /repo c0b2ed5 + c8a7116).  `compute_base_rate` used to return
+  `lhs.base_rate[i]` instead of the formula value wherever `ulps_eq!(lhs.base_rate[i], rhs.base_rate[i])`.  An entry
+  taking that shortcut with UNEQUAL values replaced a convex combination of `a1 i`, `a2 i` by `a1 i`, so the fused
+  base rate did not always sum to one (`C02_base_rate_sum_defect`, kept on the pinned definition
+  `Pinned.computeBaseRateLeft`), and the theorems on the sum, on ECm's simplex and on whole-opinion well-formedness
+  carried the hypothesis `hsc` "the shortcut is only taken at equal entries".  Since c8a7116 the test is the exact
+  `lhs.base_rate[i] == rhs.base_rate[i]`: the hypothesis holds by construction (`FuseQ.hsc`) and has been DROPPED
+  from `C02_simplex_wf_ecm`, `C02_base_rate_sum`, `C02_wf`, `C02_wf_ecm`: every part of the property now holds
+  unconditionally (`C02_base_rate_between_unconditional` collects the base-rate clauses on the model).
 -/
 import SLV.Props.C09
 import SLV.Refine.FuseLemmas
 import SLV.Refine.C02Lemmas
+import SLV.Model.Pinned
 
 namespace SLV.Props.C02
 open SLV Scalar FuseQ
@@ -68,21 +71,19 @@ theorem C02_simplex_wf {op : FuseOp} (hop : op ≠ .ecm) (same : Bool) {b1 b2 a1
   have hS := simplexQ_swf f op h1.swf h2.swf
   exact ⟨hS.hb, fun i => by linarith [hS.b_le i, hS.hu], hS.hu, hS.u_le_one, hS.hs⟩
 
-/-- ECm (= ACm followed by `uncertainty_maximized` under the fused base rate `a`), when no base-rate
-    entry takes the `ulps_eq!` shortcut with unequal values — e.g. shared or equal base rates, or base
-    rates differing by more than ε and 4 ulps wherever they differ:
+/-- ECm (= ACm followed by `uncertainty_maximized` under the fused base rate `a`; no hypothesis on the base rates
+    since repair c8a7116):
     `Σb + u = 1`, `u ∈ [0,1]`, masses `≤ 1`, `≥ 0` wherever `a i > ε`, and never below `-ε`
     (entries with `a i ≤ ε` are skipped by the `is_zero` guard of `max_uncertainty`, see C09). -/
 theorem C02_simplex_wf_ecm (same : Bool) {b1 b2 a1 a2 : Fin n → ℚ} {u1 u2 : ℚ}
-    (h1 : WF b1 u1 a1) (h2 : WF b2 u2 a2)
-    (hsc : same = false → ∀ i, sc f a1 a2 i = true → a1 i = a2 i) :
+    (h1 : WF b1 u1 a1) (h2 : WF b2 u2 a2) :
     (∀ i, f.eps < (fuseQ f .ecm same b1 u1 a1 b2 u2 a2).2.2 i →
         0 ≤ (fuseQ f .ecm same b1 u1 a1 b2 u2 a2).1 i) ∧
     (∀ i, -f.eps ≤ (fuseQ f .ecm same b1 u1 a1 b2 u2 a2).1 i) ∧
     (∀ i, (fuseQ f .ecm same b1 u1 a1 b2 u2 a2).1 i ≤ 1) ∧
     0 ≤ (fuseQ f .ecm same b1 u1 a1 b2 u2 a2).2.1 ∧ (fuseQ f .ecm same b1 u1 a1 b2 u2 a2).2.1 ≤ 1 ∧
     ∑ i, (fuseQ f .ecm same b1 u1 a1 b2 u2 a2).1 i + (fuseQ f .ecm same b1 u1 a1 b2 u2 a2).2.1 = 1 := by
-  obtain ⟨hA0, hA⟩ := baseRateQ_dist (f := f) .ecm same h1 h2 hsc
+  obtain ⟨hA0, hA⟩ := baseRateQ_dist (f := f) .ecm same h1 h2
   have hw := (simplexQ_swf f .ecm h1.swf h2.swf).toWF hA0 hA
   rw [fuseQ_ecm_of_dist same h1.swf h2.swf hA0 hA]
   obtain ⟨hs, hu0, hu1, hpos, hge⟩ := C09.C09_max_wf (f := f) hw
@@ -99,44 +100,52 @@ theorem C02_simplex_wf_ecm (same : Bool) {b1 b2 a1 a2 : Fin n → ℚ} {u1 u2 : 
   unfold C09.bmax
   linarith
 
-/-- ECm with NO hypothesis on the shortcut: the uncertainty is still in [0,1] and the masses are
-    finite, but the mass total inherits the defect of the base-rate sum:
-    `Σb + u = 1 + u (1 - Σa)`. -/
+/-- ECm, the general form that does not use `Σa = 1` (needed while the `ulps_eq!` shortcut could make the fused base
+    rate sum to something else; kept).  Since repair f029db5 (`uncertainty_maximized` renormalises its result)
+    the masses and the uncertainty are finite and sum to EXACTLY one whatever the fused base rate sums to
+    (before the repair the total inherited the defect of the base-rate sum: `Σb + u = 1 + u (1 - Σa)`).
+    The uncertainty is `û / (1 + û (1 - Σa))` with `û ∈ [0,1]`: non-negative, and `u (2 - Σa) ≤ 1`, i.e. at most one
+    when `Σa ≤ 1`; for `Σa > 1` it can exceed one by `(Σa - 1)/(2 - Σa)` (only when `û = 1`, which then needs
+    base-rate entries inside the guard band `(0, ε]` carrying the excess). -/
 theorem C02_simplex_ecm_gen (same : Bool) {b1 b2 a1 a2 : Fin n → ℚ} {u1 u2 : ℚ}
     (h1 : WF b1 u1 a1) (h2 : WF b2 u2 a2) :
-    0 ≤ (fuseQ f .ecm same b1 u1 a1 b2 u2 a2).2.1 ∧ (fuseQ f .ecm same b1 u1 a1 b2 u2 a2).2.1 ≤ 1 ∧
-    ∑ i, (fuseQ f .ecm same b1 u1 a1 b2 u2 a2).1 i + (fuseQ f .ecm same b1 u1 a1 b2 u2 a2).2.1
-      = 1 + (fuseQ f .ecm same b1 u1 a1 b2 u2 a2).2.1 *
-          (1 - ∑ i, (fuseQ f .ecm same b1 u1 a1 b2 u2 a2).2.2 i) := by
+    0 ≤ (fuseQ f .ecm same b1 u1 a1 b2 u2 a2).2.1 ∧
+    (fuseQ f .ecm same b1 u1 a1 b2 u2 a2).2.1 * (2 - ∑ i, (fuseQ f .ecm same b1 u1 a1 b2 u2 a2).2.2 i) ≤ 1 ∧
+    ((∑ i, (fuseQ f .ecm same b1 u1 a1 b2 u2 a2).2.2 i) ≤ 1 → (fuseQ f .ecm same b1 u1 a1 b2 u2 a2).2.1 ≤ 1) ∧
+    ∑ i, (fuseQ f .ecm same b1 u1 a1 b2 u2 a2).1 i + (fuseQ f .ecm same b1 u1 a1 b2 u2 a2).2.1 = 1 := by
   have hN := ecm_norm_pos f same h1 h2
+  have hM := ecm_norm2_pos f same h1 h2
   have hS := simplexQ_swf f .ecm h1.swf h2.swf
   have hA0 := baseRateQ_nonneg f .ecm same h1.hu h1.swf.u_le_one h2.hu h2.swf.u_le_one h1.ha0 h2.ha0
   set S := simplexQ f .ecm b1 u1 b2 u2 with hSdef
   set A := baseRateQ f .ecm same a1 u1 a2 u2 with hAdef
   have hR : fuseQ f .ecm same b1 u1 a1 b2 u2 a2
-      = (fun i => projN S.1 A S.2 i - A i * uhatN f S.1 A S.2, uhatN f S.1 A S.2, A) := by
+      = (fun i => (projN S.1 A S.2 i - A i * uhatN f S.1 A S.2) / normN f S.1 A S.2,
+          uhatN f S.1 A S.2 / normN f S.1 A S.2, A) := by
     unfold fuseQ; simp only [if_true]; rfl
   rw [hR]
-  have hp0 : ∀ i, 0 ≤ projN S.1 A S.2 i := fun i =>
-    div_nonneg (add_nonneg (hS.hb i) (mul_nonneg (hA0 i) hS.hu)) hN.le
-  have hpsum : ∑ i, projN S.1 A S.2 i = 1 := by
-    unfold projN; rw [← Finset.sum_div, div_self (ne_of_gt hN)]
-  refine ⟨?_, (foldMin_spec _ _).1, ?_⟩
-  · show 0 ≤ uhatN f S.1 A S.2
-    unfold uhatN
-    rcases (foldMin_spec (fun i => if |A i| ≤ f.eps then 1 else projN S.1 A S.2 i / A i) 1).2.2
-      with h | ⟨i, h⟩
-    · rw [h]; exact zero_le_one
-    · rw [h]; split
-      · exact zero_le_one
-      · exact div_nonneg (hp0 i) (hA0 i)
-  · show ∑ i, (projN S.1 A S.2 i - A i * uhatN f S.1 A S.2) + uhatN f S.1 A S.2 = _
-    rw [Finset.sum_sub_distrib, hpsum, ← Finset.sum_mul]; ring
+  have hU0 : 0 ≤ uhatN f S.1 A S.2 := C09.uhatG_nonneg hS.hb hS.hu hA0 hN
+  have hU1 : uhatN f S.1 A S.2 ≤ 1 := C09.uhatG_le_one S.1 A S.2
+  have hE := normN_eq (f := f) (ne_of_gt hN)
+  have hu0 : 0 ≤ uhatN f S.1 A S.2 / normN f S.1 A S.2 := div_nonneg hU0 hM.le
+  have hb2 : uhatN f S.1 A S.2 / normN f S.1 A S.2 * (2 - ∑ i, A i) ≤ 1 := by
+    rw [div_mul_eq_mul_div, div_le_one hM, hE]
+    have : uhatN f S.1 A S.2 * (2 - ∑ i, A i)
+        = uhatN f S.1 A S.2 * (1 - ∑ i, A i) + uhatN f S.1 A S.2 := by ring
+    linarith
+  refine ⟨hu0, hb2, fun hle => ?_, ?_⟩
+  · show uhatN f S.1 A S.2 / normN f S.1 A S.2 ≤ 1
+    have : (1 : ℚ) ≤ 2 - ∑ i, A i := by linarith
+    nlinarith
+  · show ∑ i, (projN S.1 A S.2 i - A i * uhatN f S.1 A S.2) / normN f S.1 A S.2
+        + uhatN f S.1 A S.2 / normN f S.1 A S.2 = 1
+    rw [← Finset.sum_div, ← add_div]
+    exact div_self (ne_of_gt hM)
 
 /-! ### 3. the fused base rate -/
 
 /-- every fused base-rate entry lies between the two operands' entries — all operators, all arms
-    (a convex combination with non-negative weights, a clone, or the left entry under the shortcut) -/
+    (a convex combination with non-negative weights, a clone, or the common entry under the shortcut) -/
 theorem C02_base_rate_between (op : FuseOp) (same : Bool) {b1 b2 a1 a2 : Fin n → ℚ} {u1 u2 : ℚ}
     (h1 : WF b1 u1 a1) (h2 : WF b2 u2 a2) (i : Fin n) :
     min (a1 i) (a2 i) ≤ (fuseQ f op same b1 u1 a1 b2 u2 a2).2.2 i ∧
@@ -173,17 +182,15 @@ theorem C02_base_rate_shared (op : FuseOp) {b1 b2 a1 a2 : Fin n → ℚ} {u1 u2 
 
 /-! ### 4. the base-rate sum -/
 
-/-- the fused base rate sums to one when no entry takes the `ulps_eq!` shortcut with unequal values
-    (always the case for a shared base rate) -/
+/-- the fused base rate sums to one — every operator, every arm, any two well-formed operands (the hypothesis
+    "no entry takes the shortcut with unequal values" of the `ulps_eq!` version holds by construction since c8a7116) -/
 theorem C02_base_rate_sum (op : FuseOp) (same : Bool) {b1 b2 a1 a2 : Fin n → ℚ} {u1 u2 : ℚ}
-    (h1 : WF b1 u1 a1) (h2 : WF b2 u2 a2)
-    (hsc : same = false → ∀ i, sc f a1 a2 i = true → a1 i = a2 i) :
+    (h1 : WF b1 u1 a1) (h2 : WF b2 u2 a2) :
     ∑ i, (fuseQ f op same b1 u1 a1 b2 u2 a2).2.2 i = 1 := by
-  rw [fuseQ_a]; exact (baseRateQ_dist op same h1 h2 hsc).2
+  rw [fuseQ_a]; exact (baseRateQ_dist op same h1 h2).2
 
-/-- in general: `|Σa − 1| ≤ Σ_{i : shortcut taken} |a1 i − a2 i|` (each such entry replaces a value
-    between `a1 i` and `a2 i` by `a1 i`).  Bounding the right-hand side by a multiple of ε needs the
-    bit-level analysis of `ulps_eq!` (`ulpIdx`), which is not done here. -/
+/-- (kept from the `ulps_eq!` shortcut) `|Σa − 1| ≤ Σ_{i : shortcut taken} |a1 i − a2 i|`.  The shortcut now being
+    taken at equal entries only (`FuseQ.sc_iff`), the right-hand side is zero and this is `C02_base_rate_sum`. -/
 theorem C02_base_rate_sum_bound (op : FuseOp) (same : Bool) {b1 b2 a1 a2 : Fin n → ℚ} {u1 u2 : ℚ}
     (h1 : WF b1 u1 a1) (h2 : WF b2 u2 a2) :
     |∑ i, (fuseQ f op same b1 u1 a1 b2 u2 a2).2.2 i - 1|
@@ -191,28 +198,40 @@ theorem C02_base_rate_sum_bound (op : FuseOp) (same : Bool) {b1 b2 a1 a2 : Fin n
   rw [fuseQ_a]
   exact baseRateQ_sum_bound f op same h1.hu h1.swf.u_le_one h2.hu h2.swf.u_le_one h1.ha h2.ha
 
-/-- the whole result is a well-formed opinion (ACm, Avg, Wgh; shortcut only at equal entries) -/
+/-- the whole result is a well-formed opinion (ACm, Avg, Wgh) -/
 theorem C02_wf {op : FuseOp} (hop : op ≠ .ecm) (same : Bool) {b1 b2 a1 a2 : Fin n → ℚ} {u1 u2 : ℚ}
-    (h1 : WF b1 u1 a1) (h2 : WF b2 u2 a2)
-    (hsc : same = false → ∀ i, sc f a1 a2 i = true → a1 i = a2 i) :
+    (h1 : WF b1 u1 a1) (h2 : WF b2 u2 a2) :
     WF (fuseQ f op same b1 u1 a1 b2 u2 a2).1 (fuseQ f op same b1 u1 a1 b2 u2 a2).2.1
       (fuseQ f op same b1 u1 a1 b2 u2 a2).2.2 := by
   obtain ⟨hb, _, hu, _, hs⟩ := C02_simplex_wf (f := f) hop same h1 h2
   exact ⟨hb, hu, hs, fun i => (C02_base_rate_unit op same h1 h2 i).1,
-    C02_base_rate_sum op same h1 h2 hsc⟩
+    C02_base_rate_sum op same h1 h2⟩
 
 /-- ECm: additionally no fused base-rate entry in the guard band (0, ε] -/
 theorem C02_wf_ecm (same : Bool) {b1 b2 a1 a2 : Fin n → ℚ} {u1 u2 : ℚ}
     (h1 : WF b1 u1 a1) (h2 : WF b2 u2 a2)
-    (hsc : same = false → ∀ i, sc f a1 a2 i = true → a1 i = a2 i)
     (hband : ∀ i, (fuseQ f .ecm same b1 u1 a1 b2 u2 a2).2.2 i = 0 ∨
       f.eps < (fuseQ f .ecm same b1 u1 a1 b2 u2 a2).2.2 i) :
     WF (fuseQ f .ecm same b1 u1 a1 b2 u2 a2).1 (fuseQ f .ecm same b1 u1 a1 b2 u2 a2).2.1
       (fuseQ f .ecm same b1 u1 a1 b2 u2 a2).2.2 := by
-  obtain ⟨hA0, hA⟩ := baseRateQ_dist (f := f) .ecm same h1 h2 hsc
+  obtain ⟨hA0, hA⟩ := baseRateQ_dist (f := f) .ecm same h1 h2
   have hw := (simplexQ_swf f .ecm h1.swf h2.swf).toWF hA0 hA
   rw [fuseQ_ecm_of_dist same h1.swf h2.swf hA0 hA] at hband ⊢
   exact C09.max_WF hw hband
+
+/-- THE BASE-RATE CLAUSES ON THE MODEL, NO HYPOTHESIS BEYOND WELL-FORMEDNESS: `fuse` (any operator, any guard arm,
+    tolerance bands included, shared base-rate object or not) returns finite data whose base rate lies entrywise
+    between the operands' entries, equals them where they agree, and sums to one -/
+theorem C02_base_rate_between_unconditional (op : FuseOp) (same : Bool) {b1 b2 a1 a2 : Fin n → ℚ} {u1 u2 : ℚ}
+    (h1 : WF b1 u1 a1) (h2 : WF b2 u2 a2) :
+    ∃ (b : Fin n → ℚ) (u : ℚ) (a : Fin n → ℚ),
+      fuse op same (⟨liftT b1, XQ.fin u1, liftT a1⟩ : Opinion (XQ f) n) ⟨liftT b2, XQ.fin u2, liftT a2⟩
+        = ⟨liftT b, XQ.fin u, liftT a⟩ ∧
+      (∀ i, min (a1 i) (a2 i) ≤ a i ∧ a i ≤ max (a1 i) (a2 i)) ∧
+      (∀ i, a1 i = a2 i → a i = a1 i) ∧
+      ∑ i, a i = 1 :=
+  ⟨_, _, _, C02_total op same h1 h2, C02_base_rate_between op same h1 h2,
+    fun i h => (C02_base_rate_shared (f := f) op h1 h2).2.1 same i h, C02_base_rate_sum op same h1 h2⟩
 
 /-! ### 5. the other overloads -/
 
@@ -254,51 +273,36 @@ theorem C02_fuse_ss_wf {op : FuseOp} (hop : op ≠ .ecm) {b1 b2 : Fin n → ℚ}
 theorem C02_fuse_assign {α : Type} [Scalar α] (op : FuseOp) (same : Bool) (l r : Opinion α n) :
     fuseAssign op same l r = fuse op same l r := rfl
 
-/-! ### witness for the finding -/
+/-! ### witness for the repaired finding (kernel-checked on the executable definitions, exact arithmetic) -/
 
-/-- FINDING witness (f32, Avg, ternary domain).  Both operands are `b = (1/4, 1/4, 0)`, `u = 1/2`; base
-    rates `a1 = (1/2 + ε/2, 1/2 - ε/2, 0)` and `a2 = (1/2, 0, 1/2)`.  Entry 0 takes the `ulps_eq!`
-    shortcut (`|a1 0 - a2 0| = ε/2 ≤ ε`) and returns `a1 0` instead of the mean; entries 1 and 2 do not.
-    The fused base rate is `(1/2 + ε/2, 1/4 - ε/4, 1/4)` and sums to `1 + ε/4 ≠ 1`.
-    (The deviation is inside the band accepted by `check_base_rate`, `is_one` = `[1-2ε, 1+4ε]`.) -/
+section Replay
+
+def q32 (n d : Nat) : XQ .f32 := .fin ((n : Rat) / (d : Rat))
+
+/-- f32, ternary domain: both operands `b = (1/4, 1/4, 0)`, `u = 1/2`; base rates `a1 = (1/2 + ε/2, 1/2 - ε/2, 0)`
+    and `a2 = (1/2, 0, 1/2)` -/
+def l32 : Opinion (XQ .f32) 3 :=
+  ⟨#v[q32 1 4, q32 1 4, q32 0 1], q32 1 2, #v[q32 8388609 16777216, q32 8388607 16777216, q32 0 1]⟩
+def r32 : Opinion (XQ .f32) 3 := ⟨#v[q32 1 4, q32 1 4, q32 0 1], q32 1 2, #v[q32 1 2, q32 0 1, q32 1 2]⟩
+
+/-- REPAIRED FINDING witness (Avg; before repairs c0b2ed5 / c8a7116, definition `Pinned.computeBaseRateLeft`).
+    Entry 0 took the `ulps_eq!` shortcut (`|a1 0 - a2 0| = ε/2 ≤ ε`) and returned `a1 0` instead of the mean;
+    entries 1 and 2 did not.  The fused base rate was `(1/2 + ε/2, 1/4 - ε/4, 1/4)`, summing to `1 + ε/4 ≠ 1`
+    (inside the band accepted by `check_base_rate`, `is_one` = `[1-2ε, 1+4ε]`). -/
 theorem C02_base_rate_sum_defect :
-    ∃ (b a1 a2 : Fin 3 → ℚ), WF b (1/2) a1 ∧ WF b (1/2) a2 ∧
-      ∃ (b' : Fin 3 → ℚ) (u' : ℚ) (a' : Fin 3 → ℚ),
-        fuse .avg false (⟨liftT b, XQ.fin (1/2), liftT a1⟩ : Opinion (XQ .f32) 3)
-            ⟨liftT b, XQ.fin (1/2), liftT a2⟩ = ⟨liftT b', XQ.fin u', liftT a'⟩ ∧
-        ∑ i, a' i = 1 + Fmt.f32.eps / 4 ∧ ∑ i, a' i ≠ 1 := by
-  have he := XQ.eps_pos Fmt.f32
-  have hl := XQ.eps_lt Fmt.f32
-  refine ⟨![1/4, 1/4, 0], ![8388609/16777216, 8388607/16777216, 0], ![1/2, 0, 1/2], ?_, ?_, ?_⟩
-  · constructor <;> simp [Fin.forall_fin_succ, Fin.sum_univ_succ] <;> norm_num
-  · constructor <;> simp [Fin.forall_fin_succ, Fin.sum_univ_succ] <;> norm_num
-  have h1 : WF (n := 3) ![1/4, 1/4, 0] (1/2) ![8388609/16777216, 8388607/16777216, 0] := by
-    constructor <;> simp [Fin.forall_fin_succ, Fin.sum_univ_succ] <;> norm_num
-  have h2 : WF (n := 3) ![1/4, 1/4, 0] (1/2) ![1/2, 0, 1/2] := by
-    constructor <;> simp [Fin.forall_fin_succ, Fin.sum_univ_succ] <;> norm_num
-  refine ⟨_, _, _, C02_total .avg false h1 h2, ?_⟩
-  have nd : ¬ GDog Fmt.f32 (1/2) := by unfold GDog; rw [abs_of_pos (by norm_num)]; linarith
-  have hA : (fuseQ Fmt.f32 .avg false ![1/4, 1/4, 0] (1/2) ![8388609/16777216, 8388607/16777216, 0]
-        ![1/4, 1/4, 0] (1/2) ![1/2, 0, 1/2]).2.2
-      = short Fmt.f32 ![8388609/16777216, 8388607/16777216, 0] ![1/2, 0, 1/2]
-          (meanA ![8388609/16777216, 8388607/16777216, 0] ![1/2, 0, 1/2]) := by
-    rw [fuseQ_a]; unfold baseRateQ
-    simp only [Bool.false_eq_true, if_false, nd, and_self]
-  have s0 : sc Fmt.f32 (n := 3) ![8388609/16777216, 8388607/16777216, 0] ![1/2, 0, 1/2] 0 = true :=
-    ulpsEq32_b_half
-  have s1 : sc Fmt.f32 (n := 3) ![8388609/16777216, 8388607/16777216, 0] ![1/2, 0, 1/2] 1 = false :=
-    ulpsEq32_a_zero
-  have s2 : sc Fmt.f32 (n := 3) ![8388609/16777216, 8388607/16777216, 0] ![1/2, 0, 1/2] 2 = false :=
-    ulpsEq32_half_zero.2
-  have hsum : ∑ i, (fuseQ Fmt.f32 .avg false ![1/4, 1/4, 0] (1/2)
-        ![8388609/16777216, 8388607/16777216, 0] ![1/4, 1/4, 0] (1/2) ![1/2, 0, 1/2]).2.2 i
-      = 1 + Fmt.f32.eps / 4 := by
-    rw [hA, Fin.sum_univ_three]
-    unfold short
-    rw [s0, s1, s2]
-    simp [meanA, Fmt.eps, Fmt.mant]
-    norm_num
-  exact ⟨hsum, by rw [hsum]; linarith⟩
+    (let a := Pinned.computeBaseRateLeft .avg false l32 r32
+     decide (a[0] = q32 8388609 16777216) && decide (a[1] = q32 8388607 33554432) && decide (a[2] = q32 1 4) &&
+       decide (a[0] + a[1] + a[2] = q32 33554433 33554432)) = true := by
+  decide +kernel
+
+/-- the same operands on the current definition: the mean in every entry, summing to exactly one -/
+theorem C02_base_rate_sum_repaired :
+    (let a := computeBaseRate .avg false l32 r32
+     decide (a[0] = q32 16777217 33554432) && decide (a[1] = q32 8388607 33554432) && decide (a[2] = q32 1 4) &&
+       decide (a[0] + a[1] + a[2] = q32 1 1)) = true := by
+  decide +kernel
+
+end Replay
 
 /-! ### non-vacuity -/
 
@@ -327,13 +331,10 @@ example : WF (n := 2) ![f.eps, 0] (1 - f.eps) ![1/4, 3/4] ∧
     · exact Fin.forall_fin_two.mpr ⟨by norm_num, by norm_num⟩
     · simp [Fin.sum_univ_two]; norm_num
 
-/-- the shortcut hypothesis holds trivially for equal base rates … -/
-example (a : Fin n → ℚ) : ∀ i, sc f a a i = true → a i = a i := fun _ _ => rfl
-
-/-- … and is satisfiable by different base rates (f32): the only entry taking the shortcut is the one
-    where they agree -/
-example : ∀ i, sc Fmt.f32 (n := 3) ![1/2, 1/2, 0] ![1/2, 0, 1/2] i = true →
-    (![1/2, 1/2, 0] : Fin 3 → ℚ) i = (![1/2, 0, 1/2] : Fin 3 → ℚ) i := hsc32_witness
+/-- the operands of the repaired finding are well-formed: `C02_base_rate_sum` applies to them -/
+example : WF (n := 3) ![1/4, 1/4, 0] (1/2) ![8388609/16777216, 8388607/16777216, 0] ∧
+    WF (n := 3) ![1/4, 1/4, 0] (1/2) ![1/2, 0, 1/2] := by
+  constructor <;> constructor <;> simp [Fin.forall_fin_succ, Fin.sum_univ_succ] <;> norm_num
 
 /-- a concrete evaluation: averaging fusion of two binary opinions sharing their base rate (f64) -/
 example :
